@@ -2,5 +2,5 @@ SPECIFICATION Spec
 CONSTANTS
   B = 16
   N = 2
-INVARIANTS Arith Logic Shifts Division Exponent
+INVARIANTS Arith Logic Shifts Division Exponent Ternary Bytes
 CHECK_DEADLOCK FALSE
